@@ -442,5 +442,11 @@ func genOps(t *rapid.T, c *Cfg, p *genProfile) []Op {
 	gen := rapid.Custom(func(t *rapid.T) Op { return genOp(t, c, p, kinds, inGrp) })
 	// rapid's slices average ~6 elements above the minimum: draw the minimum itself so that long histories are common
 	minLen := rapid.IntRange(p.minOps, p.maxOps).Draw(t, "minlen")
-	return rapid.SliceOfN(gen, minLen, p.maxOps).Draw(t, "ops")
+	ops := rapid.SliceOfN(gen, minLen, p.maxOps).Draw(t, "ops")
+	if p.gc && p.tinyFiles && len(ops) > 4 && rapid.IntRange(0, 2).Draw(t, "short_first_file") == 0 {
+		// an early rotation leaves the first data file short: a file with room below every later GC range (GC appends to it)
+		at := rapid.IntRange(1, 3).Draw(t, "short_first_file_at")
+		ops = append(ops[:at], append([]Op{{Kind: "rotate", K: 0, V: verifkit.ValSpec{Salt: 9}}}, ops[at:]...)...)
+	}
+	return ops
 }
